@@ -1,1 +1,330 @@
-fn main() {}
+//! `pxharness`: runs the real pyxis crate in-process on CASE lines and prints canonical
+//! observation lines (see /verif/PROTOCOL.md).
+
+mod case;
+mod common;
+mod o1;
+mod o2;
+mod o3;
+mod printer;
+mod sexp;
+
+use std::{
+    io::{BufRead, Write},
+    path::{Path, PathBuf},
+    time::{Duration, Instant},
+};
+
+use case::Case;
+use sexp::{st, sym, tagged, Sexp};
+
+#[derive(Clone, Copy, PartialEq, Eq)]
+enum Point {
+    O1,
+    O2,
+    O3,
+}
+impl Point {
+    fn name(self) -> &'static str {
+        match self {
+            Point::O1 => "o1",
+            Point::O2 => "o2",
+            Point::O3 => "o3",
+        }
+    }
+}
+
+struct Opts {
+    points: Vec<Point>,
+    isolate: bool,
+    timeout_ms: u64,
+    work: PathBuf,
+}
+
+const USAGE: &str = "usage:
+  pxharness run --points o1,o2,o3 [--isolate] [--timeout-ms N] [--work DIR]   < cases > observations
+  pxharness mkcase [--ps N] FILE.pyxis...      (one raw-text case per file, for the self test)";
+
+fn die(msg: &str) -> ! {
+    eprintln!("pxharness: {msg}\n{USAGE}");
+    std::process::exit(2)
+}
+
+fn main() {
+    let args: Vec<String> = std::env::args().skip(1).collect();
+    match args.first().map(String::as_str) {
+        Some("run") => run(parse_run_opts(&args[1..])),
+        Some("mkcase") => mkcase(&args[1..]),
+        _ => die("expected a subcommand"),
+    }
+}
+
+fn parse_run_opts(args: &[String]) -> Opts {
+    let mut opts = Opts {
+        points: vec![Point::O1, Point::O2, Point::O3],
+        isolate: false,
+        timeout_ms: 5000,
+        work: PathBuf::from("/verif/.work/tmp"),
+    };
+    let mut it = args.iter();
+    while let Some(arg) = it.next() {
+        let mut value = |name: &str| -> String {
+            it.next()
+                .cloned()
+                .unwrap_or_else(|| die(&format!("{name} needs a value")))
+        };
+        match arg.as_str() {
+            "--points" => {
+                let list = value("--points");
+                let mut points = vec![];
+                // always reported in the order o1, o2, o3
+                for p in [Point::O1, Point::O2, Point::O3] {
+                    if list.split(',').any(|s| s.trim() == p.name()) {
+                        points.push(p);
+                    }
+                }
+                if let Some(bad) = list
+                    .split(',')
+                    .map(str::trim)
+                    .find(|s| !matches!(*s, "o1" | "o2" | "o3"))
+                {
+                    die(&format!("unknown point {bad:?}"));
+                }
+                opts.points = points;
+            }
+            "--isolate" => opts.isolate = true,
+            "--timeout-ms" => {
+                opts.timeout_ms = value("--timeout-ms")
+                    .parse()
+                    .unwrap_or_else(|_| die("--timeout-ms needs a number"))
+            }
+            "--work" => opts.work = PathBuf::from(value("--work")),
+            other => die(&format!("unknown argument {other:?}")),
+        }
+    }
+    opts
+}
+
+fn obs_line(id: &str, point: Point, obs: Sexp) -> String {
+    tagged("obs", [st(id), sym(point.name()), obs]).to_string()
+}
+
+fn observe(case: &Case, point: Point, case_dir: &Path) -> Sexp {
+    match point {
+        Point::O1 => common::guarded(|| o1::observe(case)),
+        Point::O2 => o2::observe(case),
+        Point::O3 => o3::observe(case, case_dir),
+    }
+}
+
+fn run(opts: Opts) {
+    std::panic::set_hook(Box::new(|_| {}));
+    let stdin = std::io::stdin();
+    let stdout = std::io::stdout();
+    let mut seq = 0u64;
+    for line in stdin.lock().split(b'\n') {
+        let Ok(line) = line else { break };
+        let line = String::from_utf8_lossy(&line);
+        let line = line.trim();
+        if line.is_empty() || line.starts_with(';') {
+            continue;
+        }
+        let mut out = stdout.lock();
+        let case = match sexp::parse_line(line).and_then(|s| {
+            case::decode_case(&s).map_err(|e| match case::peek_id(&s) {
+                Some(id) => format!("case {id:?}: {e}"),
+                None => e,
+            })
+        }) {
+            Ok(case) => case,
+            Err(msg) => {
+                let _ = writeln!(out, "{}", tagged("obs", [st("?"), sym("error"), st(msg)]));
+                let _ = out.flush();
+                continue;
+            }
+        };
+        seq += 1;
+        let case_dir = opts.work.join(format!("c{}-{}", std::process::id(), seq));
+        let lines = if opts.isolate {
+            run_isolated(&case, &opts, &case_dir)
+        } else {
+            opts.points
+                .iter()
+                .map(|&p| obs_line(&case.id, p, observe(&case, p, &case_dir)))
+                .collect()
+        };
+        let _ = std::fs::remove_dir_all(&case_dir);
+        for l in lines {
+            let _ = writeln!(out, "{l}");
+        }
+        let _ = out.flush();
+    }
+}
+
+// ---- --isolate ---------------------------------------------------------------
+
+const ADDRESS_SPACE_LIMIT: libc::rlim_t = 2 << 30;
+
+fn run_isolated(case: &Case, opts: &Opts, case_dir: &Path) -> Vec<String> {
+    let _ = std::io::stdout().flush();
+    let _ = std::io::stderr().flush();
+
+    let mut fds = [0 as libc::c_int; 2];
+    if unsafe { libc::pipe(fds.as_mut_ptr()) } != 0 {
+        return fill_missing(case, opts, vec![], "abort");
+    }
+    let (rfd, wfd) = (fds[0], fds[1]);
+
+    let pid = unsafe { libc::fork() };
+    if pid < 0 {
+        unsafe {
+            libc::close(rfd);
+            libc::close(wfd);
+        }
+        return fill_missing(case, opts, vec![], "abort");
+    }
+    if pid == 0 {
+        // child: one line per point, written as soon as it is known
+        unsafe {
+            libc::close(rfd);
+            let lim = libc::rlimit {
+                rlim_cur: ADDRESS_SPACE_LIMIT,
+                rlim_max: ADDRESS_SPACE_LIMIT,
+            };
+            libc::setrlimit(libc::RLIMIT_AS, &lim);
+        }
+        for &p in &opts.points {
+            let mut line = obs_line(&case.id, p, observe(case, p, case_dir));
+            line.push('\n');
+            let mut bytes = line.as_bytes();
+            while !bytes.is_empty() {
+                let n = unsafe { libc::write(wfd, bytes.as_ptr().cast(), bytes.len()) };
+                if n <= 0 {
+                    unsafe { libc::_exit(3) };
+                }
+                bytes = &bytes[n as usize..];
+            }
+        }
+        unsafe { libc::_exit(0) };
+    }
+
+    // parent
+    unsafe { libc::close(wfd) };
+    let deadline = Instant::now() + Duration::from_millis(opts.timeout_ms);
+    let mut buf: Vec<u8> = vec![];
+    let mut timed_out = false;
+    loop {
+        let remaining = deadline.saturating_duration_since(Instant::now());
+        if remaining.is_zero() {
+            timed_out = true;
+            break;
+        }
+        let mut pfd = libc::pollfd {
+            fd: rfd,
+            events: libc::POLLIN,
+            revents: 0,
+        };
+        let ms = remaining.as_millis().clamp(1, i32::MAX as u128) as libc::c_int;
+        let r = unsafe { libc::poll(&mut pfd, 1, ms) };
+        if r < 0 {
+            if std::io::Error::last_os_error().kind() == std::io::ErrorKind::Interrupted {
+                continue;
+            }
+            break;
+        }
+        if r == 0 {
+            continue; // deadline is re-checked at the top
+        }
+        let mut chunk = [0u8; 65536];
+        let n = unsafe { libc::read(rfd, chunk.as_mut_ptr().cast(), chunk.len()) };
+        if n < 0 {
+            if std::io::Error::last_os_error().kind() == std::io::ErrorKind::Interrupted {
+                continue;
+            }
+            break;
+        }
+        if n == 0 {
+            break; // end of file: the child is gone (or going)
+        }
+        buf.extend_from_slice(&chunk[..n as usize]);
+    }
+    unsafe { libc::close(rfd) };
+
+    // reap the child, killing it at the deadline
+    let mut status: libc::c_int = 0;
+    loop {
+        let r = unsafe { libc::waitpid(pid, &mut status, libc::WNOHANG) };
+        if r == pid {
+            break;
+        }
+        if r < 0 && std::io::Error::last_os_error().kind() != std::io::ErrorKind::Interrupted {
+            break;
+        }
+        if timed_out || Instant::now() >= deadline {
+            timed_out = true;
+            unsafe {
+                libc::kill(pid, libc::SIGKILL);
+                libc::waitpid(pid, &mut status, 0);
+            }
+            break;
+        }
+        std::thread::sleep(Duration::from_millis(1));
+    }
+
+    // complete lines only
+    let text = String::from_utf8_lossy(&buf);
+    let mut lines: Vec<String> = vec![];
+    let mut rest: &str = &text;
+    while let Some(pos) = rest.find('\n') {
+        lines.push(rest[..pos].to_string());
+        rest = &rest[pos + 1..];
+    }
+    fill_missing(case, opts, lines, if timed_out { "timeout" } else { "abort" })
+}
+
+/// The lines the child managed to deliver, then `(timeout)` / `(panic "abort")` for the
+/// points it did not reach.
+fn fill_missing(case: &Case, opts: &Opts, mut lines: Vec<String>, why: &str) -> Vec<String> {
+    lines.truncate(opts.points.len());
+    for &p in &opts.points[lines.len()..] {
+        let obs = if why == "timeout" {
+            tagged("timeout", [])
+        } else {
+            tagged("panic", [st("abort")])
+        };
+        lines.push(obs_line(&case.id, p, obs));
+    }
+    lines
+}
+
+// ---- mkcase ------------------------------------------------------------------
+
+fn mkcase(args: &[String]) {
+    let mut ps = 4usize;
+    let mut files = vec![];
+    let mut it = args.iter();
+    while let Some(arg) = it.next() {
+        if arg == "--ps" {
+            ps = it
+                .next()
+                .and_then(|v| v.parse().ok())
+                .unwrap_or_else(|| die("--ps needs a number"));
+        } else {
+            files.push(arg.clone());
+        }
+    }
+    for f in files {
+        let path = Path::new(&f);
+        let text = std::fs::read_to_string(path)
+            .unwrap_or_else(|e| die(&format!("cannot read {f}: {e}")));
+        let name = path
+            .file_name()
+            .map(|n| n.to_string_lossy().into_owned())
+            .unwrap_or_else(|| die("bad file name"));
+        let id = path
+            .file_stem()
+            .map(|n| n.to_string_lossy().into_owned())
+            .unwrap_or_default();
+        println!("{}", case::text_case_sexp(&id, ps, &[(name, text)]));
+    }
+}
